@@ -125,6 +125,15 @@ func (c *c20Gen) stmt() c20Stmt {
 		return multi("brackets", lines, allBut(3))
 	case 7:
 		lines := []string{fmt.Sprintf("s = '''%d", id), "", "b'''"}
+		switch g.N(4) {
+		case 1:
+			// lines that would be comments, blank or indented code anywhere else are text inside the string
+			lines = []string{fmt.Sprintf("s = '''%d", id), "# not a comment", "  # nor this", "", "    if x:", "b'''"}
+			return multi("triple-quoted", lines, allBut(6))
+		case 2:
+			lines = []string{fmt.Sprintf("s = [\"\"\"%d", id), "#", "x = (", "\"\"\", 2,", "  # a real comment inside the brackets", "  3]"}
+			return multi("triple-quoted", lines, allBut(6))
+		}
 		return multi("triple-quoted", lines, allBut(3))
 	case 8:
 		lines := []string{fmt.Sprintf("x = %d + \\", id), "    2"}
